@@ -47,6 +47,26 @@ if len(sys.argv) > 3 and sys.argv[3] == "pysem":
                "  silently truncating, `dict.get` / `pop` / `setdefault` defaults, integer division and bit operations on Python ints\n"
                "  (sign, precedence of `&`, `<<`, `==`), exception classes with the same name or a changed base class, `except` clauses\n"
                "  that became broader or narrower, `finally` / `else` ordering, generator functions whose body runs later than the call.\n")
+if len(sys.argv) > 3 and sys.argv[3] == "sizes":
+    VARIANT = ("* Prefer changes whose effect depends on the *size or magnitude of the data*: values or keys long enough to change how they\n"
+               "  are encoded (RLP strings of 56 bytes and more, of 256 and of 65536 bytes and more; a single byte below / above 0x80;\n"
+               "  32-byte keys as Ethereum uses them; key paths of 56+ nibbles; shared prefixes dozens of nibbles long), tries deeper than\n"
+               "  a few levels, a node with all 16 (or both) children, a count / index / length that must reach 2, 3, 16, 17, 32, 255 or\n"
+               "  256 before the slip shows, the largest and smallest legal `key_size`, the last bit / nibble / byte of a key, integer\n"
+               "  widths, off-by-one on a length that small inputs never reach.\n")
+if len(sys.argv) > 3 and sys.argv[3] == "faults":
+    VARIANT = ("* Prefer changes that only show *when something fails at a particular point*: the n-th write or delete of the database\n"
+               "  raising, a read raising `KeyError` (a node body that is absent) at one particular depth, the body of a `with` block\n"
+               "  raising after some operations already ran, an exception of an unusual class (a `KeyError` raised by user code inside\n"
+               "  a block, `BaseException`), a refused (invalid) call in the middle of a history, the same object being used again after\n"
+               "  such a failure. The slip should leave state behind (a marker, a counter, a buffer, a half-applied update, a pointer\n"
+               "  moved too early) that only the *following* calls reveal.\n")
+if len(sys.argv) > 3 and sys.argv[3] == "twosite":
+    VARIANT = ("* Each change must consist of *two cooperating edits at different sites*, each of which looks like a harmless refactoring\n"
+               "  on its own and — applied alone — keeps the property (say so in meta.json and check it): e.g. a helper that now\n"
+               "  returns a slightly different but still documented form, and a caller that relies on the old form in one branch; a\n"
+               "  normalisation moved from the producer to only some of the consumers; an invariant established at one place and\n"
+               "  assumed at another, weakened at the first.\n")
 prop = [json.loads(l) for l in open(os.path.join(HERE, "properties.jsonl")) if json.loads(l)["id"] == pid][0]
 wt = "/tmp/wt/%s%s" % (pid, suffix)
 os.makedirs("/tmp/wt", exist_ok=True)
